@@ -1,6 +1,23 @@
 import PgFdr.Json
+import PgFdr.Model.C03
 namespace PgFdr.Driver
 open Lean PgFdr
+
+/-- `{"op":"group","mode":"no"|"subset"|"subset_pg"|"pseudo_gene","pil":[[peptide,[num,den],[protein…]]…]}` →
+    `{"groups":[[protein…]…]}` (the `.protein_groups` of the returned `ProteinGroups`) -/
+def handleGroup (j : Json) : R Json := do
+  let mode ← jstr (← jget j "mode")
+  let pil ← jlist jpepinfo (← jget j "pil")
+  match mode with
+  | "no" => pure (obj [("groups", ofGroups (C03.noGrouping pil))])
+  | "subset" => pure (obj [("groups", ofGroups (C03.subsetGrouping pil))])
+  | "subset_pg" =>
+    let pg := C03.subsetGroupingPG pil
+    pure (obj [("groups", ofGroups pg.groups), ("valid", .bool pg.valid),
+               ("index", PgFdr.ofList (fun (x : String × Nat) => Json.arr #[.str x.1, ofNat x.2]) (C20.indexItems pg))])
+  | "pseudo_gene" => pure (obj [("groups", ofGroups (C03.pseudoGeneGrouping pil))])
+  | _ => .error s!"unknown grouping mode {mode}"
+
 /-- protocol handlers of property C03: (op name, handler) -/
-def handlersC03 : List (String × (Json → R Json)) := []
+def handlersC03 : List (String × (Json → R Json)) := [("group", handleGroup)]
 end PgFdr.Driver
